@@ -357,6 +357,13 @@ func ruleC12StateCAS(c *Ctx) {
 			return false
 		}
 		for _, e := range node.In {
+			// the wrapper the compiler makes for a promoted method (`(*clientState).setLock` forwarding to the embedded
+			// helper's method) that nothing calls is not a caller
+			if cf := e.Caller.Func; cf != nil && cf.Synthetic != "" {
+				if cn := c.CG.Nodes[cf]; cn == nil || len(cn.In) == 0 {
+					continue
+				}
+			}
 			args := e.Site.Common().Args
 			if e.Site.Common().IsInvoke() || idx >= len(args) {
 				return false
